@@ -46,7 +46,8 @@ PROBES = ['fresh_object_checked', 'fresh_on_recycled_dirty_storage', 'child_copy
           'gc_reentrant_free', 'deferred_free', 'deferred_processed_by_malloc', 'deferred_processed_by_free',
           'arena_growth', 'arena_alloc_failed', 'reused_block', 'merge_prev', 'merge_next', 'merge_both',
           'exact_fit', 'split', 'struct_object', 'array_by_initializer', 'array_by_length', 'zero_length_array',
-          'synchronized_object', 'raw_object', 'arena_rebuilt_in_child']
+          'synchronized_object', 'raw_object', 'arena_rebuilt_in_child', 'forked_under_lock',
+          'after_fork_hook_ran']
 
 
 class Point(ctypes.Structure):          # has padding (1 + 7 pad + 8 + 4 + 4 pad = 24 bytes)
@@ -305,6 +306,12 @@ def generate(rng, tier, prop='C15'):
             parts = [rng.choice('TP') for _ in range(rng.randint(2, 4))]
             shared.append({'kind': 'counter', 'spec': spec, 'parts': parts, 'n': rng.randint(1, 4 if small else 6),
                            'elem': rng.randrange(spec['len']) if spec['len'] else 0})
+        elif rng.random() < 0.3:
+            # fork start method: a child forked by a thread that is inside `with obj.get_lock():` inherits the
+            # lock object as it is at that moment (held, by "itself"); it must still be excluded
+            spec = gen_spec(rng, 'counter')
+            shared.append({'kind': 'forklock', 'spec': spec, 'n': rng.randint(1, 3),
+                           'elem': rng.randrange(spec['len']) if spec['len'] else 0})
         else:
             spec = gen_spec(rng, 'rmw')
             parts = [rng.choice(['uT', 'uP', 'wT', 'wP', 'rT', 'rP']) for _ in range(rng.randint(2, 4))]
@@ -343,7 +350,7 @@ def shrink(case):
             c[key] = val
             yield c
     for i, sh in enumerate(case['shared']):
-        if len(sh['parts']) > 1:
+        if len(sh.get('parts', ())) > 1:
             for j in range(len(sh['parts'])):
                 c = dict(case)
                 c['shared'] = [dict(s) for s in case['shared']]
@@ -363,6 +370,13 @@ def execute(case, seed, choices=None):
     seams.install_sync()
     SH.install_heap()
     ctx = SimContext()
+
+    class ForkContext(SimContext):
+        _name = 'fork'
+
+        def get_start_method(self, allow_none=False):
+            return 'fork'
+    fork_ctx = ForkContext()
     world = SH.ArenaWorld(k, case.get('arena_fail') or {})
     heap = SH.new_heap(case['heap_size'])
     mon = HeapMonitor(k, heap, world, 'C15.heap', reent=case.get('reent', 0))
@@ -386,11 +400,11 @@ def execute(case, seed, choices=None):
         return '%s(%s%s)' % (spec['api'], spec['type'], '' if spec['len'] is None else '*%d' % spec['len'])
 
     # ------------------------------------------------------------------ object life cycle
-    def new_object(ti, slot, spec, pinned=False):
+    def new_object(ti, slot, spec, pinned=False, use_ctx=None):
         mon.begin_malloc()
         f0 = world.failed
         try:
-            obj = create(ctx, spec)
+            obj = create(use_ctx or ctx, spec)
         except (OSError, MemoryError) as exc:
             mon.malloc_failed()
             if world.failed == f0:
@@ -718,12 +732,89 @@ def execute(case, seed, choices=None):
         del obj
         drop_object(ti, 0)
 
+    def run_forklock(ti, sh):
+        """What os.fork() does to a shared object whose lock the forking thread holds: the child's copy of
+        the lock handle has the parent's recursion count and "owner" (the forking thread is the child's main
+        thread), then the hooks registered with register_after_fork run on it.  Parent and child both do
+        locked read-modify-write sequences; none may be lost."""
+        import copy
+        import multiprocessing.util as mpu
+        actor_index[k.cur().name] = ti
+        spec, n, elem = dict(sh['spec']), sh['n'], sh['elem']
+        spec['lock'] = 'rlock' if spec.get('lock') in (False, None) else spec['lock']
+        rec = new_object(ti, 0, spec, pinned=True, use_ctx=fork_ctx)
+        if rec is None:
+            return
+        obj = rec['obj']
+        one = 1.0 if spec['type'] in 'fd' else 1
+        lock = obj.get_lock()
+        me = k.cur()
+        done = {}
+
+        def forked_child():
+            a = k.enter('forked')
+            k.wait_until(a, lambda: 'view' in done, None, 'forked')
+            body(done['view'], 'child')
+            k.exit_now(0)
+
+        def clone(x):
+            # (a forked child has a byte copy of the object; pickling hooks are not involved)
+            y = object.__new__(type(x))
+            y.__dict__.update(x.__dict__)
+            return y
+
+        def body(o, who):
+            for _ in range(n):
+                with o.get_lock():
+                    cur = elem_get(o, spec, elem)
+                    k.yield_('in-critical-section')
+                    elem_set(o, spec, elem, cur + one)
+
+        start = elem_get(obj, spec, elem)
+        with lock:
+            # --- fork here ---
+            child = k.create_process('fk-', forked_child)
+            sl = lock._semlock
+            sl2 = type(sl)(sl.kind, 0, sl.maxvalue, _ksem=sl._s)
+            sl2._cnt = sl._cnt
+            sl2._last = child.main if sl._last is me else sl._last
+            lock2 = clone(lock)
+            lock2._semlock = sl2
+            lock2._make_methods()
+            for (_i, _ident, func), o in sorted(mpu._afterfork_registry.items(), key=lambda kv: kv[0][0]):
+                if o is lock:
+                    func(lock2)
+                    k.probe('after_fork_hook_ran')
+            view = clone(obj)
+            view._lock = lock2
+            view.acquire = lock2.acquire
+            view.release = lock2.release
+            done['view'] = view
+            k.probe('forked_under_lock')
+            cur = elem_get(obj, spec, elem)
+            k.yield_('in-critical-section')
+            k.yield_('in-critical-section')
+            elem_set(obj, spec, elem, cur + one)
+        body(obj, 'parent')
+        k.waitpid(child.pid, 0)
+        total = elem_get(obj, spec, elem)
+        want = start + one * (2 * n + 1)
+        if total != want:
+            bad('atomic', 'lost-update-across-fork:%s' % spec['api'],
+                '%s: parent (inside its lock when it forked) and forked child did %d locked increments, '
+                'value went from %r to %r' % (describe(spec), 2 * n + 1, start, total))
+        rec['pinned'] = False
+        resync(rec)
+        done.clear()
+        del view, obj, lock, lock2
+        drop_object(ti, 0)
+
     def user():
         acts = []
         for ti, prog in enumerate(case['threads']):
             acts.append(k.spawn_thread(lambda ti=ti, prog=prog: run_prog(ti, prog), 't%d' % ti))
         for si, sh in enumerate(case['shared']):
-            fn = run_counter if sh['kind'] == 'counter' else run_rmw
+            fn = {'counter': run_counter, 'forklock': run_forklock}.get(sh['kind'], run_rmw)
             acts.append(k.spawn_thread(lambda si=si, sh=sh, fn=fn: fn(nthr + si, sh), 's%d' % si))
         for a in acts:
             k.join_actor(a)
